@@ -1024,6 +1024,14 @@ def run_part(chk, quick):
             diffs.append((c, files[i][0], got, c["_walk"], mlines[i]))
     chk.count("guards-xref-walk", len(xl), set(xl))
     chk.cov["parts"]["guards-xref-walk"]["outcome_categories"] = xcats
+    # a run that was stopped by the WALL clock while its CPU time stayed inside the budget (a stall of the machine, not of qpdf)
+    # is run again alone; a hang by CPU or output limit is not
+    wall_only = [f for f in fails if f[3] and f[3][1] == -999 and "hang: killed" in f[2] and float(re.search(r"cpu ([\d.]+) s", f[2]).group(1)) < 1.0]
+    if 0 < len(wall_only) <= 8:
+        for f in wall_only:
+            rc, so, se, cpu, rss, wall = run_qpdf_capped(exe, f[3][0], f[1])
+            if rc not in (-999, -998):
+                fails.remove(f)
     # budget overruns are re-run alone before they count
     for c, (p, size), args in over:
         rc, so, se, cpu, rss, wall = run_qpdf_capped(exe, args, p)
@@ -1044,6 +1052,12 @@ def run_part(chk, quick):
         def runasan(i):
             return run_qpdf_capped(asan_exe, argsof[cases[i]["kind"]], files[i][0], asan=True)
         ares = common.par_map(runasan, sample, workers=4)
+        stalled = [k for k, r in enumerate(ares) if r[0] == -999]
+        if 0 < len(stalled) <= 8:
+            # a run killed at a time limit is run again alone before it counts (a stall of the machine hits a few runs at once;
+            # a real hang comes back)
+            for k in stalled:
+                ares[k] = runasan(sample[k])
         for i, (rc, so, se, cpu, rss, wall) in zip(sample, ares):
             if rc == -999 or rc < 0 or rc >= 128 or rc in (98, 99) or SAN_RE.search(se) or INTERNAL_RE.search(se):
                 fails.append((cases[i], files[i][0], "ASan+UBSan run did not end in a documented way (rc=%s)" % rc, (argsof[cases[i]["kind"]], rc, se[-1200:].decode("latin-1"))))
